@@ -284,6 +284,16 @@ class ShapeDomain(Domain):
             return Unknown('array of unknown shape')
         if last in ('ones_like', 'zeros_like', 'empty_like', 'sqrt', 'cos', 'sin', 'exp', 'abs', 'asarray', 'array', 'copy', 'log') and isinstance(a0, (Sh, Scalar)):
             return a0
+        if last in ('hypot', 'arctan2', 'multiply', 'add', 'subtract', 'divide', 'maximum', 'minimum') and len(args) == 2:
+            da, db_ = self._dims(args[0]), self._dims(args[1])
+            if da is not None and db_ is not None:
+                r = broadcast(da, db_)
+                if r is None:
+                    self.interp.emit('broadcast-error', a=da, b=db_, node=node)
+                    return Unknown('broadcast error')
+                return Sh(r) if (isinstance(args[0], Sh) or isinstance(args[1], Sh)) else Scalar()
+        if dotted == 'builtins.hasattr' and isinstance(a0, Sh) and len(args) == 2 and isinstance(args[1], Const):
+            return Const(args[1].v in ('ndim', 'shape', 'dtype', 'size', 'astype', 'reshape', '__len__', '__iter__'))
         if last == 'squeeze' and isinstance(a0, Sh):
             return Sh(tuple(d for d in a0.dims if d != 1))
         if last == 'stack' and isinstance(a0, Tup) and all(isinstance(x, Sh) for x in a0.items) and a0.items:
